@@ -13,7 +13,7 @@ def lockfacts_hook(ctx):
         res["broken"] = {"kind": "translator", "detail": "gen/lockfacts.txt missing"}
         return res
     flagged, warnings, impls, nfacts, untouched = {}, [], [], 0, []
-    kinds = {}
+    kinds, mutexes, guards = {}, [], {}
     for l in open(p):
         t = l.split()
         if not t:
@@ -31,10 +31,19 @@ def lockfacts_hook(ctx):
             flagged.setdefault(t[1] + "/" + t[2], set()).add(t[3])
         elif t[0] == "warning":
             warnings.append(" ".join(t[1:]))
-        elif t[0] == "field" and t[4] == "untouched" and t[3] != "sync":
-            untouched.append(t[1] + "/" + t[2])
+        elif t[0] == "mutex":
+            mutexes.append(t[2] + "/" + t[3])
+        elif t[0] == "field":
+            if t[4] == "untouched" and t[3] != "sync":
+                untouched.append(t[1] + "/" + t[2])
+            g = [x[6:] for x in t if x.startswith("guard=")]
+            if g and g[0] not in ("-", "Mutex"):
+                guards[t[1] + "/" + t[2]] = g[0]  # fields guarded by another mutex than the screen lock ("!m": no common mutex)
     res["stats"]["evaluations"] = nfacts
-    extra = {"impls": impls, "facts": nfacts, "flagged": {k: sorted(v) for k, v in sorted(flagged.items())},
+    extra = {"impls": impls, "facts": nfacts, "mutexes": mutexes, "fields_not_guarded_by_the_screen_mutex": guards,
+             "discipline_variant": "full (flagged list empty: discipline_tree / fields_race_free_tree give the unconditional statements)" if not flagged
+                                   else "partial (discipline_except_disengage; flagged entry points must be reproduced by the race detector)",
+             "flagged": {k: sorted(v) for k, v in sorted(flagged.items())},
              "untouched_fields": untouched, "translator_warnings": warnings}
     if warnings:
         res["broken"] = {"kind": "translator", "detail": warnings[:10]}
